@@ -224,3 +224,118 @@ func init() {
 		}},
 	)
 }
+
+// Follow-up wp-c20b: manifest helpers, AMD firmware / directory / entry functions, FIT modifying path.
+func init() {
+	specs = append(specs,
+		// hand-written functions the generated manifest readers call (the readers themselves are
+		// statement-matched into Gen/Manifest.lean), and the hand-written readers next to them
+		Spec{Area: "C20MfCbnt", Pkg: "pkg/intel/metadata/cbnt", Items: []Item{
+			{Kind: "sites", Name: "Key.keyDataSize"},
+			{Kind: "sites", Name: "BitSize.InBytes"},
+			{Kind: "sites", Name: "StructureID.String"},
+			{Kind: "sites", Name: "ParseChipsetACModuleInformation"},
+			{Kind: "guards", Name: "ParseChipsetACModuleInformation"},
+			{Kind: "bytesvar", Name: "chipsetACModuleInformationSignature"},
+			{Kind: "sites", Name: "HashList.ReadFrom"},
+			{Kind: "sites", Name: "TPMInfoList.ReadFrom"},
+		}},
+		Spec{Area: "C20MfBg", Pkg: "pkg/intel/metadata/bg", Items: []Item{
+			{Kind: "sites", Name: "Key.keyDataSize"},
+			{Kind: "sites", Name: "BitSize.InBytes"},
+			{Kind: "sites", Name: "StructureID.String"},
+			{Kind: "sites", Name: "HashStructureFill.hashSize"},
+			{Kind: "sites", Name: "Algorithm.size"},
+			{Kind: "sites", Name: "Algorithm.IsNull"},
+		}},
+		Spec{Area: "C20MfBgHeader", Pkg: "pkg/intel/metadata/common/bgheader", Items: []Item{
+			{Kind: "sites", Name: "DetectBGV"},
+			{Kind: "guards", Name: "DetectBGV"},
+			{Kind: "layout", Name: "structInfo"},
+		}},
+		Spec{Area: "C20MfCbntBpm", Pkg: "pkg/intel/metadata/cbnt/cbntbootpolicy", Items: []Item{
+			{Kind: "sites", Name: "Manifest.ReadFrom"},
+			{Kind: "sites", Name: "Manifest.fieldIndexByStructID"},
+			{Kind: "sites", Name: "SE.ReadDataFrom"},
+		}},
+		Spec{Area: "C20MfBgBpm", Pkg: "pkg/intel/metadata/bg/bgbootpolicy", Items: []Item{
+			{Kind: "sites", Name: "Manifest.ReadFrom"},
+			{Kind: "sites", Name: "Manifest.fieldIndexByStructID"},
+			{Kind: "sites", Name: "SE.ReadDataFrom"},
+		}},
+		Spec{Area: "C20Amd", Pkg: "pkg/amd/manifest", Items: []Item{
+			{Kind: "sites", Name: "FindEmbeddedFirmwareStructure"},
+			{Kind: "guards", Name: "FindEmbeddedFirmwareStructure"},
+			{Kind: "sites", Name: "ParseEmbeddedFirmwareStructure"},
+			{Kind: "guards", Name: "ParseEmbeddedFirmwareStructure"},
+			{Kind: "sites", Name: "FindPSPDirectoryTable"},
+			{Kind: "guards", Name: "FindPSPDirectoryTable"},
+			{Kind: "sites", Name: "ParsePSPDirectoryTable"},
+			{Kind: "guards", Name: "ParsePSPDirectoryTable"},
+			{Kind: "sites", Name: "ParsePSPDirectoryTableEntry"},
+			{Kind: "sites", Name: "FindBIOSDirectoryTable"},
+			{Kind: "guards", Name: "FindBIOSDirectoryTable"},
+			{Kind: "sites", Name: "ParseBIOSDirectoryTable"},
+			{Kind: "guards", Name: "ParseBIOSDirectoryTable"},
+			{Kind: "sites", Name: "ParseBIOSDirectoryTableEntry"},
+			{Kind: "sites", Name: "parsePSPFirmware"},
+			{Kind: "guards", Name: "parsePSPFirmware"},
+			{Kind: "sites", Name: "FirmwareImage.PhysAddrToOffset"},
+			{Kind: "sites", Name: "readAndCountSize"},
+			{Kind: "const", Name: "BIOSDirectoryTableEntrySize"},
+			{Kind: "const", Name: "PSPDirectoryTableEntrySize"},
+		}},
+		Spec{Area: "C20AmdPsb", Pkg: "pkg/amd/psb", Items: []Item{
+			{Kind: "sites", Name: "GetPSPEntries"},
+			{Kind: "sites", Name: "GetPSPEntry"},
+			{Kind: "guards", Name: "GetPSPEntry"},
+			{Kind: "sites", Name: "GetBIOSEntries"},
+			{Kind: "sites", Name: "GetBIOSEntry"},
+			{Kind: "sites", Name: "GetEntries"},
+			{Kind: "sites", Name: "ExtractPSPEntry"},
+			{Kind: "sites", Name: "ExtractBIOSEntry"},
+			{Kind: "sites", Name: "PatchPSPEntry"},
+			{Kind: "sites", Name: "PatchBIOSEntry"},
+			{Kind: "sites", Name: "patchEntry"},
+			{Kind: "guards", Name: "patchEntry"},
+			{Kind: "guards", Name: "GetRangeBytes"},
+			{Kind: "guards", Name: "checkBoundaries"},
+			{Kind: "sites", Name: "getPSPTable"},
+			{Kind: "sites", Name: "getBIOSTable"},
+			{Kind: "sites", Name: "GetKeys"},
+			{Kind: "guards", Name: "GetKeys"},
+			{Kind: "sites", Name: "getKeysFromDatabase"},
+			{Kind: "guards", Name: "getKeysFromDatabase"},
+			{Kind: "guards", Name: "parseKeyDatabase"},
+			{Kind: "sites", Name: "KeySet.AddKey"},
+			{Kind: "guards", Name: "KeySet.AddKey"},
+			{Kind: "guards", Name: "NewTokenKey"},
+		}},
+		Spec{Area: "C20FitInject", Pkg: "pkg/intel/metadata/fit", Items: []Item{
+			{Kind: "calls", Name: "sliceOrCopyBytesFrom", Arg: "append"},
+			{Kind: "calls", Name: "sliceOrCopyBytesFrom", Arg: "copy"},
+			{Kind: "calls", Name: "entryInitDataSegmentBytes", Arg: "append"},
+			{Kind: "calls", Name: "NewEntry", Arg: "append"},
+			{Kind: "guards", Name: "Entries.RecalculateHeaders"},
+			{Kind: "guards", Name: "EntryRecalculateHeaders"},
+			{Kind: "guards", Name: "mostCommonRecalculateHeadersOfEntry"},
+			{Kind: "sites", Name: "Uint24.SetUint32"},
+			{Kind: "guards", Name: "Uint24.SetUint32"},
+			{Kind: "calls", Name: "mostCommonRecalculateHeadersOfEntry", Arg: "hdr.Size.SetUint32"},
+			{Kind: "calls", Name: "Entries.RecalculateHeaders", Arg: "beginEntry.GetEntryBase().Headers.Size.SetUint32", As: "calls_Entries_RecalculateHeaders_SetUint32"},
+			{Kind: "calls", Name: "EntryKeyManifestRecord.CustomRecalculateHeaders", Arg: "entry.Headers.Size.SetUint32"},
+			{Kind: "calls", Name: "EntryBootPolicyManifestRecord.CustomRecalculateHeaders", Arg: "entry.Headers.Size.SetUint32"},
+			{Kind: "calls", Name: "EntryBIOSPolicyRecord.CustomRecalculateHeaders", Arg: "entry.Headers.Size.SetUint32"},
+			{Kind: "calls", Name: "EntrySACM.CustomRecalculateHeaders", Arg: "entry.Headers.Size.SetUint32"},
+			{Kind: "calls", Name: "EntryTXTPolicyRecord.CustomRecalculateHeaders", Arg: "hdr.Size.SetUint32"},
+			{Kind: "sites", Name: "EntryFITHeaderEntry.CustomRecalculateHeaders"},
+			{Kind: "guards", Name: "Entries.InjectTo"},
+			{Kind: "guards", Name: "EntryBase.injectDataSectionTo"},
+			{Kind: "guards", Name: "Table.WriteTo"},
+			{Kind: "sites", Name: "EntryKeyManifestRecord.ParseData"},
+			{Kind: "guards", Name: "EntryKeyManifestRecord.ParseData"},
+			{Kind: "sites", Name: "EntryBootPolicyManifestRecord.ParseData"},
+			{Kind: "guards", Name: "EntryBootPolicyManifestRecord.ParseData"},
+		}},
+	)
+}
